@@ -19,17 +19,14 @@ pub trait Battery: Form + Clone + PartialEq + Debug + Send + Sync + 'static {
     }
 }
 
-/// Value pools. Quick: 2-3 boundary values per type; thorough: a few more.
-pub struct Pools {
-    pub thorough: bool,
-}
+/// Value pools: a few boundary values per field type (the same in both tiers; the tiers differ
+/// in the depth of the text mutations).
+pub struct Pools;
 
 impl Pools {
-    fn sel<T: Clone>(&self, quick: &[T], extra: &[T]) -> Vec<T> {
-        let mut v = quick.to_vec();
-        if self.thorough {
-            v.extend_from_slice(extra);
-        }
+    fn sel<T: Clone>(&self, base: &[T], extra: &[T]) -> Vec<T> {
+        let mut v = base.to_vec();
+        v.extend_from_slice(extra);
         v
     }
     pub fn i32s(&self) -> Vec<i32> {
@@ -90,9 +87,8 @@ impl Pools {
     }
     /// Sub-selection of an inner type's instances for use as a field pool of an outer type
     /// (nesting): the first `n` plus the last one.
-    pub fn inner<T: Battery>(&self, n_quick: usize, n_thorough: usize) -> Vec<T> {
+    pub fn inner<T: Battery>(&self, _n_small: usize, n: usize) -> Vec<T> {
         let all = T::instances(self);
-        let n = if self.thorough { n_thorough } else { n_quick };
         if all.len() <= n + 1 {
             all
         } else {
@@ -104,9 +100,10 @@ impl Pools {
 }
 
 macro_rules! cart {
-    ($out:ident; ; $e:expr) => { $out.push($e); };
-    ($out:ident; $v:ident in $pool:expr $(, $vs:ident in $pools:expr)* ; $e:expr) => {
-        for $v in $pool.iter().cloned() { cart!($out; $($vs in $pools),* ; $e); }
+    ($out:ident; $($v:ident in $pool:expr),* ; $e:expr) => { cart!(@go $out; [] $($v in $pool),* ; $e) };
+    (@go $out:ident; [$($b:ident)*] ; $e:expr) => { { $(let $b = $b.clone();)* $out.push($e); } };
+    (@go $out:ident; [$($b:ident)*] $v:ident in $pool:expr $(, $vs:ident in $pools:expr)* ; $e:expr) => {
+        for $v in $pool.iter() { cart!(@go $out; [$($b)* $v] $($vs in $pools),* ; $e); }
     };
 }
 
